@@ -1,0 +1,84 @@
+//! Verification hooks. Compiled only with `--cfg edp_rs_verif`; without it none of this exists and
+//! every call site below compiles to nothing.
+//!
+//! * `epmd_port_override` lets a harness point every `EpmdClient::new` at a scripted EPMD.
+//! * `sync_point` / `lock_probe` let a deterministic thread scheduler interleave the atomic steps
+//!   of synchronous code and learn which interleavings a lock forbids.
+//! * `point` does the same for async tasks: it parks the calling task until the scheduler lets it go.
+
+use std::sync::atomic::{AtomicU16, Ordering};
+use std::sync::{Arc, Mutex, RwLock, TryLockError};
+
+static EPMD_PORT: AtomicU16 = AtomicU16::new(0);
+
+pub fn set_epmd_port(port: u16) {
+    EPMD_PORT.store(port, Ordering::SeqCst);
+}
+
+pub fn epmd_port_override() -> Option<u16> {
+    match EPMD_PORT.load(Ordering::SeqCst) {
+        0 => None,
+        port => Some(port),
+    }
+}
+
+pub type SyncHook = dyn Fn(&'static str, u64, u64) + Send + Sync;
+static SYNC_HOOK: RwLock<Option<Arc<SyncHook>>> = RwLock::new(None);
+
+pub fn install_sync_hook(hook: Option<Arc<SyncHook>>) {
+    *SYNC_HOOK.write().unwrap_or_else(|e| e.into_inner()) = hook;
+}
+
+/// A scheduling point of synchronous code: the installed hook may park the calling thread.
+pub fn sync_point(label: &'static str, a: u64, b: u64) {
+    let hook = SYNC_HOOK
+        .read()
+        .unwrap_or_else(|e| e.into_inner())
+        .clone();
+    if let Some(hook) = hook {
+        hook(label, a, b);
+    }
+}
+
+/// Before blocking on `mutex`: report "blocked" to the scheduler for as long as somebody else holds it.
+pub fn lock_probe<T>(label: &'static str, mutex: &Mutex<T>) {
+    if SYNC_HOOK
+        .read()
+        .unwrap_or_else(|e| e.into_inner())
+        .is_none()
+    {
+        return;
+    }
+    loop {
+        match mutex.try_lock() {
+            Ok(guard) => {
+                drop(guard);
+                return;
+            }
+            Err(TryLockError::Poisoned(_)) => return,
+            Err(TryLockError::WouldBlock) => sync_point(label, 1, 0),
+        }
+    }
+}
+
+pub type PointHook =
+    dyn Fn(String, &'static str, String) -> Option<tokio::sync::oneshot::Receiver<()>> + Send + Sync;
+static POINT_HOOK: RwLock<Option<Arc<PointHook>>> = RwLock::new(None);
+
+pub fn install_point_hook(hook: Option<Arc<PointHook>>) {
+    *POINT_HOOK.write().unwrap_or_else(|e| e.into_inner()) = hook;
+}
+
+/// A scheduling point of async code: `actor` names the logical task, `label` the place, `detail`
+/// whatever the place wants to tell the scheduler. Returns at once when no hook is installed.
+pub async fn point(actor: impl Into<String>, label: &'static str, detail: impl Into<String>) {
+    let hook = POINT_HOOK
+        .read()
+        .unwrap_or_else(|e| e.into_inner())
+        .clone();
+    if let Some(hook) = hook {
+        if let Some(go) = hook(actor.into(), label, detail.into()) {
+            let _ = go.await;
+        }
+    }
+}
